@@ -18,12 +18,16 @@
 #include <type_traits>
 #include <thread>
 #include <mutex>
+#include <map>
 #include <atomic>
 using namespace orc;
 typedef __int128 i128; typedef unsigned __int128 u128;
 static std::mutex g_mu;
-static std::atomic<long> g_nf(0);   // the known findings (roundMultiple ...) fail on a large part of the thorough cross products: after two million reports the rest are only counted
-static void tfail(std::string const& fn, std::string const& cls, std::string const& in, std::string const& ex, std::string const& got) { if (g_nf.fetch_add(1, std::memory_order_relaxed) > 2000000) return; std::lock_guard<std::mutex> l(g_mu); fail(fn, cls, in, ex, got); }
+// the known findings (roundMultiple, rotate direction ...) fail on a large part of the thorough cross products: each thread passes at
+// most 20000 reports per (function, class) to the locked reporter and only counts the rest
+static void tfail(std::string const& fn, std::string const& cls, std::string const& in, std::string const& ex, std::string const& got) {
+	static thread_local std::map<std::string, long> seen; if (++seen[fn + "|" + cls] > 20000) return;
+	std::lock_guard<std::mutex> l(g_mu); fail(fn, cls, in, ex, got); }
 static void tcount(std::string const& fn, long n) { std::lock_guard<std::mutex> l(g_mu); count(fn, n); }
 static std::string s128(i128 v) { bool neg = v < 0; u128 u = neg ? (u128)(-v) : (u128)v; std::string s; do { s.insert(s.begin(), char('0' + (int)(u % 10))); u /= 10; } while (u); return neg ? "-" + s : s; }
 template<class T> struct TI { typedef typename std::make_unsigned<T>::type U; static const int w = sizeof(T) * 8; static const bool sg = std::is_signed<T>::value;
